@@ -967,6 +967,9 @@ def judge(rec, case, exp, seq, cli, cwd, world):
             key = 'C18:clean-without-gridding-opts-keyerror'
         elif case['cls'] == 'override_path' and is_path_typeerror(cli['exc']):
             key = 'C18:path-on-terminal-and-in-file-typeerror'
+        elif case['cls'] == 'load_misfit_json' and isinstance(
+                cli['exc'], TypeError) and 'memoryview' in str(cli['exc']):
+            key = 'C18:loaded-misfit-to-json-output-typeerror'
         elif case['cls'] == 'freq_npz' and isinstance(
                 cli['exc'], TypeError) and 'unhashable' in str(cli['exc']):
             key = 'C18:gridding-frequency-with-npz-survey-typeerror'
@@ -1392,6 +1395,7 @@ def run_sequence(rec, seed, k, i, cls='sequence'):
     """--save, then --load/--cache (+ --clean, -l) on the saved file."""
     r = gen.rng(seed, 'C18', k, i)
     nogrid = cls == 'clean_nogrid'
+    lmj = cls == 'load_misfit_json'
     with Work() as cwd:
         lay_ok = bool(r.random() < 0.4)
         world = make_world(gen.rng(seed, 'C18', k, i, 'world'), lay_ok)
@@ -1399,6 +1403,8 @@ def run_sequence(rec, seed, k, i, cls='sequence'):
         ctx = ctx_of(world, cwd, lay_ok)
         # step 1: a run that saves the simulation
         f1 = gen.choice(r, ['forward', 'misfit', 'gradient'])
+        if lmj:
+            f1 = 'misfit'
         c1 = fresh_case(cls, k, i, f1, lay_ok)
         add_cfg(c1, r, 'simulation', 'gridding', ctx, value=('same', 'same'))
         for key in ('tol', 'maxit', 'sslsolver'):
@@ -1409,6 +1415,8 @@ def run_sequence(rec, seed, k, i, cls='sequence'):
                     value=('False', False))
         f2 = gen.choice(r, ['forward', 'misfit', 'gradient'])
         how = gen.choice(r, ['load', 'cache', 'cfg_load', 'cfg_cache'])
+        if lmj:
+            f2 = gen.choice(r, ['misfit', 'gradient'])
         json_ok = f1 == 'forward' and (f2 == 'forward' or 'load' in how)
         simname = file_name(r, 'save', fmt=gen.choice(
             r, ['h5', 'npz', 'json'] if json_ok else ['h5', 'npz']))
@@ -1416,7 +1424,7 @@ def run_sequence(rec, seed, k, i, cls='sequence'):
             c1['tv']['save'] = simname
         else:
             add_cfg(c1, r, 'files', 'save', ctx, value=(simname, simname))
-        c1['tv']['dry_run'] = bool(r.random() < 0.2)
+        c1['tv']['dry_run'] = bool(r.random() < 0.2) and not lmj
         if r.random() < 0.9:
             c1['tv']['nproc'] = 1
         set_function(c1, r)
@@ -1433,7 +1441,7 @@ def run_sequence(rec, seed, k, i, cls='sequence'):
             add_cfg(c2, r, 'files', how[4:], ctx, value=(simname, simname))
         else:
             c2['tv'][how] = simname
-        clean = nogrid or r.random() < 0.4
+        clean = nogrid or (r.random() < 0.4 and not lmj)
         if clean:
             c2['tv']['clean'] = True
             mname = 'm2_' + file_name(r, 'model')
@@ -1445,13 +1453,21 @@ def run_sequence(rec, seed, k, i, cls='sequence'):
             c2['tv']['layered'] = True
         if r.random() < 0.5:
             c2['tv']['output'] = 'second_' + file_name(r, 'output')
+        # a loaded simulation with a stored misfit + json output is its own
+        # input class (sim.misfit is then a memoryview)
+        stored = f1 in ('misfit', 'gradient') and not c1['tv']['dry_run'] \
+            and not clean and f2 in ('misfit', 'gradient')
+        if lmj:
+            c2['tv']['output'] = 'second_result.json'
+        elif stored and (c2['tv'].get('output') or '').endswith('.json'):
+            c2['tv']['output'] = c2['tv']['output'][:-5] + '.npz'
         if f2 == 'forward' and r.random() < 0.6:
             for key in ('add_noise', 'min_offset', 'ntype'):
                 if r.random() < 0.5:
                     add_cfg(c2, r, 'noise_opts', key, ctx)
         if r.random() < 0.3:
             c2['tv']['nproc'] = 2      # ignored with --load (documented)
-        c2['tv']['dry_run'] = bool(r.random() < 0.15)
+        c2['tv']['dry_run'] = bool(r.random() < 0.15) and not lmj
         set_function(c2, r)
         exp2 = R.expected_api(c2, cwd)
         # with --load the [simulation]/-n values are ignored (documented)
@@ -1726,12 +1742,14 @@ def run_one(rec, batch, i, kind, payload):
     elif kind == 'known':
         r0 = gen.rng(seed, 'C18', k, i, 'pre')
         function = gen.choice(r0, ['forward', 'misfit', 'gradient'])
-        if (payload + k) % 3 == 0:
+        if (payload + k) % 4 == 0:
             run_regular(rec, seed, k, i, 'cell_number', build_cell_number,
                         function, False, small=True)
-        elif (payload + k) % 3 == 1:
+        elif (payload + k) % 4 == 1:
             run_regular(rec, seed, k, i, 'freq_npz', build_freq_npz,
                         function, False, small=True)
+        elif (payload + k) % 4 == 2:
+            run_sequence(rec, seed, k, i, cls='load_misfit_json')
         else:
             run_sequence(rec, seed, k, i, cls='clean_nogrid')
     elif kind == 'sub':
